@@ -44,6 +44,9 @@ pub struct Out {
     pub samples: Vec<String>,
     pub notes: Vec<String>,
     pub case_no: u64,
+    /// drop `hist ...` lines (streams whose states are too large for the list-based Lean
+    /// monitors and whose property does not rest on them)
+    pub mute_hist: bool,
 }
 
 impl Out {
@@ -57,11 +60,15 @@ impl Out {
             samples: vec![],
             notes: vec![],
             case_no: 0,
+            mute_hist: false,
         }
     }
     pub fn line(&mut self, s: &str) {
         debug_assert!(!s.contains('\n'));
         beat();
+        if self.mute_hist && s.starts_with("hist ") {
+            return;
+        }
         self.w.write_all(s.as_bytes()).unwrap();
         self.w.write_all(b"\n").unwrap();
         self.lines += 1;
